@@ -3,7 +3,7 @@
 From Coq Require Import ZArith List Bool.
 From GoIpa Require Import Model.Bytes Model.Zq Model.Sha256 Model.Alg Model.Transcript
   Model.Edwards Model.FpSqrt Model.Banderwagon Model.Codec Model.Bary Model.IPA
-  Model.Multiproof Model.Serde Model.Pippenger Model.Mont.
+  Model.Multiproof Model.Serde Model.Pippenger Model.Mont Model.Precomp.
 Import ListNotations.
 Open Scope Z_scope.
 
@@ -62,3 +62,9 @@ Definition c_msm_inner (c : Z) (points : list element) (scalars : list Fr) (spli
 Definition monto : FOps Z :=
   mkFOps Z 0 i_one i_add i_sub i_mul i_neg i_inverse Z.eqb (fun v => i_to_mont v) (fun x => i_from_mont x).
 Definition c_batch_invert_mont := batch_invert monto.
+
+(* algorithm-level commitment: precomputed window tables (banderwagon/precomp.go) *)
+Definition c_pc_table (i : nat) (p : element) : Z * list (list element) :=
+  let w := pc_window_size i in (w, pc_table fro bwo (pc_nwindows w) w p).
+Definition c_pc_scalar_mul (wt : Z * list (list element)) (s : Fr) (res : element) : element :=
+  if zval s =? 0 then res else pc_scalar_mul bwo (fst wt) (snd wt) (zval s) res.
